@@ -68,6 +68,8 @@ inductive S
   /-- `break;` / `continue;` (what follows in the block is unreachable and dropped by the front end) -/
   | brk
   | cnt
+  /-- `try { body } stop { handler }`: the body runs up to the point of defeat, then the handler -/
+  | tryStop (body handler : S) (k : S)
   deriving Repr, Inhabited
 
 /-- a user function: `int` parameters, result `int` or `empty` -/
@@ -87,6 +89,8 @@ structure Cx where
   checked : Bool
   /-- code address of the runtime library (= length of the function's code) -/
   B : Nat
+  /-- address of the state word `defeat` (`try_fp` is the word before it; both exist only in programs with a `try/stop`) -/
+  dA : Nat
   deriving Repr
 
 def Cx.M (cx : Cx) : Nat := 256 ^ cx.w
@@ -292,30 +296,44 @@ def lenArgs (ck : Bool) : List E → Nat
   | [] => 0
   | e :: es => lenPush ck e + lenArgs ck es
 
+/-- jump targets and defeat mode of the code being compiled -/
+structure Jt where
+  /-- `continue` label of the innermost loop -/
+  cont : Nat
+  /-- `break` label of the innermost loop -/
+  brk : Nat
+  /-- inside the body of a `try/stop`: a defeat is `j [defeat]` instead of `halt` -/
+  vd : Bool
+  deriving Repr, Inhabited
+
+/-- offset of the label `halt` in the runtime library -/
+def off_halt : Nat := off_all_is_win + 3
+
 /-- a call of a user function: return address, arguments, frame switch, jump, frame restore -/
 def lenCall (ck : Bool) (args : List E) : Nat := 1 + lenArgs ck args + 3 + 1
 
-def lenS (ck : Bool) : S → Nat
-  | .nil => 0
-  | .ret => 3
-  | .decl _ e k => lenPush ck e + lenS ck k
-  | .assign _ e k => lenGV ck e + 1 + lenS ck k
-  | .write e k => lenWrite ck e + lenS ck k
-  | .writeln (some e) k => lenWrite ck e + 1 + lenS ck k
-  | .writeln none k => 1 + lenS ck k
-  | .putc _ k => 1 + lenS ck k
-  | .block b k => lenS ck b + lenS ck k
-  | .ifb c t e k => lenB ck c 0 2 false true + lenS ck t + 2 + lenS ck e + lenS ck k
-  | .loop c body cont k => lenB ck c 0 2 false true + lenS ck body + lenS ck cont + 2 + lenS ck k
-  | .defeat k => 1 + lenS ck k
-  | .defeatIf c k => lenD ck c + lenS ck k
-  | .tryUndo body handler k => 1 + lenS ck body + 2 + lenS ck handler + lenS ck k
-  | .retE e => lenGV ck e + 4
-  | .callS _ args k => lenCall ck args + lenS ck k
-  | .declCall _ _ args k => lenCall ck args + lenS ck k
-  | .assignCall _ _ args k => lenCall ck args + 2 + lenS ck k
-  | .brk => 2
-  | .cnt => 2
+def lenS (ck : Bool) : (vd : Bool) → S → Nat
+  | _, .nil => 0
+  | _, .ret => 3
+  | vd, .decl _ e k => lenPush ck e + lenS ck vd k
+  | vd, .assign _ e k => lenGV ck e + 1 + lenS ck vd k
+  | vd, .write e k => lenWrite ck e + lenS ck vd k
+  | vd, .writeln (some e) k => lenWrite ck e + 1 + lenS ck vd k
+  | vd, .writeln none k => 1 + lenS ck vd k
+  | vd, .putc _ k => 1 + lenS ck vd k
+  | vd, .block b k => lenS ck vd b + lenS ck vd k
+  | vd, .ifb c t e k => lenB ck c 0 2 false true + lenS ck vd t + 2 + lenS ck vd e + lenS ck vd k
+  | vd, .loop c body cont k => lenB ck c 0 2 false true + lenS ck vd body + lenS ck vd cont + 2 + lenS ck vd k
+  | vd, .defeat k => (if vd then 2 else 1) + lenS ck vd k
+  | vd, .defeatIf c k => lenD ck c + lenS ck vd k
+  | vd, .tryUndo body handler k => 1 + lenS ck vd body + 2 + lenS ck vd handler + lenS ck vd k
+  | _, .retE e => lenGV ck e + 4
+  | vd, .callS _ args k => lenCall ck args + lenS ck vd k
+  | vd, .declCall _ _ args k => lenCall ck args + lenS ck vd k
+  | vd, .assignCall _ _ args k => lenCall ck args + 2 + lenS ck vd k
+  | _, .brk => 2
+  | _, .cnt => 2
+  | vd, .tryStop body handler k => 5 + lenS ck true body + 2 + 3 + lenS ck vd handler + lenS ck vd k
 
 /-- the call `write(e)` for an `int` argument (`eval_func_call`, general path, callee `write_int`) -/
 def cWrite (cx : Cx) (Γ : Gam) (pc o : Nat) (e : E) : List Instr :=
@@ -340,7 +358,7 @@ def cCall (cx : Cx) (fa : FAddr) (Γ : Gam) (pc o : Nat) (g : String) (args : Li
     [.alu .add cx.fp (.st cx.fp) (cx.negImm o), .j (.imm (faddr fa g)), .halt,
      .alu .add cx.fp (.st cx.fp) (.imm (wrapI cx.M o))]
 
-def cS (cx : Cx) (fa : FAddr) : (lp : Nat × Nat) → (Γ : Gam) → (pc o : Nat) → S → List Instr
+def cS (cx : Cx) (fa : FAddr) : (lp : Jt) → (Γ : Gam) → (pc o : Nat) → S → List Instr
   | _, _, _, _, .nil => []
   | _, _, _, _, .ret => [ldSlot cx cx.r1 cx.w, .j (.st cx.r1), .halt]
   | lp, Γ, pc, o, .decl x e k =>
@@ -363,23 +381,24 @@ def cS (cx : Cx) (fa : FAddr) : (lp : Nat × Nat) → (Γ : Gam) → (pc o : Nat
     c ++ cS cx fa lp Γ (pc + c.length) o k
   | lp, Γ, pc, o, .ifb c t e k =>
     let nC := lenB cx.checked c 0 2 false true
-    let elseA := pc + nC + lenS cx.checked t + 2
-    let endA := elseA + lenS cx.checked e
+    let elseA := pc + nC + lenS cx.checked lp.vd t + 2
+    let endA := elseA + lenS cx.checked lp.vd e
     cB cx Γ pc o c [] (goto elseA) ++ cS cx fa lp Γ (pc + nC) o t ++ goto endA ++ cS cx fa lp Γ elseA o e
       ++ cS cx fa lp Γ endA o k
   | lp, Γ, pc, o, .loop c body cont k =>
     let nC := lenB cx.checked c 0 2 false true
-    let contA := pc + nC + lenS cx.checked body
-    let brkA := contA + lenS cx.checked cont + 2
-    cB cx Γ pc o c [] (goto brkA) ++ cS cx fa (contA, brkA) Γ (pc + nC) o body ++ cS cx fa lp Γ contA o cont ++ goto pc
+    let contA := pc + nC + lenS cx.checked lp.vd body
+    let brkA := contA + lenS cx.checked lp.vd cont + 2
+    cB cx Γ pc o c [] (goto brkA) ++ cS cx fa { lp with cont := contA, brk := brkA } Γ (pc + nC) o body ++ cS cx fa lp Γ contA o cont ++ goto pc
       ++ cS cx fa lp Γ brkA o k
-  | lp, Γ, pc, o, .defeat k => .halt :: cS cx fa lp Γ (pc + 1) o k
+  | lp, Γ, pc, o, .defeat k =>
+    if lp.vd then [.j (.st cx.dA), .halt] ++ cS cx fa lp Γ (pc + 2) o k else .halt :: cS cx fa lp Γ (pc + 1) o k
   | lp, Γ, pc, o, .defeatIf c k =>
     let d := cD cx Γ pc o c
     d ++ cS cx fa lp Γ (pc + d.length) o k
   | lp, Γ, pc, o, .tryUndo body handler k =>
-    let hA := pc + 1 + lenS cx.checked body + 2
-    let endA := hA + lenS cx.checked handler
+    let hA := pc + 1 + lenS cx.checked lp.vd body + 2
+    let endA := hA + lenS cx.checked lp.vd handler
     [.j (.imm hA)] ++ cS cx fa lp Γ (pc + 1) o body ++ goto endA ++ cS cx fa lp Γ hA o handler ++ cS cx fa lp Γ endA o k
   | lp, Γ, pc, o, .retE e =>
     let (c, v) := gV cx Γ pc o cx.r0 e
@@ -393,8 +412,20 @@ def cS (cx : Cx) (fa : FAddr) : (lp : Nat × Nat) → (Γ : Gam) → (pc o : Nat
   | lp, Γ, pc, o, .assignCall x g args k =>
     let c := cCall cx fa Γ pc o g args ++ [ldSlot cx cx.r1 (o + cx.w), stSlot cx (look Γ x) (.st cx.r1)]
     c ++ cS cx fa lp Γ (pc + c.length) o k
-  | lp, _, _, _, .brk => goto lp.2
-  | lp, _, _, _, .cnt => goto lp.1
+  | lp, _, _, _, .brk => goto lp.brk
+  | lp, _, _, _, .cnt => goto lp.cont
+  | lp, Γ, pc, o, .tryStop body handler k =>
+    -- `ap` is saved in the next frame slot (bound here to the pseudo-variable `%ap`), `fp` in `try_fp`
+    let bodyA := pc + 5
+    let hA := bodyA + lenS cx.checked true body + 2
+    let hbA := hA + 3
+    let endA := hbA + lenS cx.checked lp.vd handler
+    [stSlot cx (o + cx.w) (.st 0), .mov (cx.dA - cx.w) (.st cx.fp), .mov cx.dA (.imm hA), .j (.imm bodyA),
+     .mov cx.dA (.imm (cx.B + off_halt))] ++
+    cS cx fa { lp with vd := true } (("%ap", o + cx.w) :: Γ) bodyA (o + cx.w) body ++ goto endA ++
+    [.mov cx.dA (.imm (cx.B + off_halt)), .mov cx.fp (.st (cx.dA - cx.w)), ldSlot cx 0 (o + cx.w)] ++
+    cS cx fa lp Γ hbA o handler ++ cS cx fa lp Γ endA o k
+
 
 /-! ## the stack-check constant (`Tracker`): the peak of `stack.static_size` over the function -/
 def pkE (w : Nat) : (o : Nat) → E → Bool → Nat
@@ -449,6 +480,7 @@ def pkS (w : Nat) : (o : Nat) → S → Nat
   | o, .assignCall _ _ args k => max (pkCall w o args) (pkS w o k)
   | o, .brk => o
   | o, .cnt => o
+  | o, .tryStop body handler k => max (o + w) (max (pkS w (o + w) body) (max (pkS w o handler) (pkS w o k)))
 
 /-! ## the whole program -/
 structure Config where
@@ -467,7 +499,7 @@ structure CProg where
 
 def prologueLen (ck : Bool) : Nat := if ck then 5 else 0
 
-def funcLen (ck : Bool) (body : S) : Nat := prologueLen ck + lenS ck body
+def funcLen (ck : Bool) (body : S) : Nat := prologueLen ck + lenS ck false body
 
 /-- code addresses: each function right behind the previous one -/
 def layout (ck : Bool) : Nat → List FDecl → FAddr
@@ -483,7 +515,11 @@ def progLen (ck : Bool) (pr : CProg) : Nat := funcLen ck pr.body + funsLen ck pr
 
 def progFA (ck : Bool) (pr : CProg) : FAddr := layout ck (funcLen ck pr.body) pr.funs
 
-def mkCx (cf : Config) (pr : CProg) : Cx := { w := cf.w, checked := cf.checked, B := progLen cf.checked pr }
+/-- address of the state word `defeat`: the words `try_fp` and `defeat` follow the entry frame -/
+def defeatAddr (cf : Config) (pr : CProg) : Nat := 5 * cf.w + cf.stackWords * cf.w + pr.params.length * cf.w + cf.w + cf.w
+
+def mkCx (cf : Config) (pr : CProg) : Cx :=
+  { w := cf.w, checked := cf.checked, B := progLen cf.checked pr, dA := defeatAddr cf pr }
 
 /-- frame offsets of the `int` parameters of a function, starting at offset `o` (the return
 address is at `w`, so the first parameter is at `2w`), in order -/
@@ -500,7 +536,7 @@ def funcCode (cx : Cx) (fa : FAddr) (base : Nat) (params : List String) (body : 
     [.j (.imm (base + 5)), .alu .sub cx.r1 (.st cx.fp) (.st 0),
      .hcond .hgeu (.st cx.r1) (.imm (pkS cx.w (entryOff cx.w params) body % cx.M)),
      .j (.imm (cx.B + off_stack_overflow)), .halt]
-   else []) ++ cS cx fa (0, 0) (paramGam cx.w (2 * cx.w) params) (base + prologueLen cx.checked) (entryOff cx.w params) body
+   else []) ++ cS cx fa ⟨0, 0, false⟩ (paramGam cx.w (2 * cx.w) params) (base + prologueLen cx.checked) (entryOff cx.w params) body
 
 def funsCode (cx : Cx) (fa : FAddr) : Nat → List FDecl → List Instr
   | _, [] => []
@@ -511,19 +547,38 @@ def progCode (cf : Config) (pr : CProg) : List Instr :=
   let fa := progFA cf.checked pr
   funcCode cx fa 0 pr.params pr.body ++ funsCode cx fa (funcLen cf.checked pr.body) pr.funs
 
+/-- the program has a `try/stop` (then the state section has the words `try_fp` and `defeat`) -/
+def hasStop : S → Bool
+  | .nil => false | .ret => false | .retE _ => false | .brk => false | .cnt => false
+  | .decl _ _ k => hasStop k | .assign _ _ k => hasStop k | .write _ k => hasStop k
+  | .writeln _ k => hasStop k | .putc _ k => hasStop k
+  | .block b k => hasStop b || hasStop k
+  | .ifb _ t e k => hasStop t || hasStop e || hasStop k
+  | .loop _ body cont k => hasStop body || hasStop cont || hasStop k
+  | .defeat k => hasStop k | .defeatIf _ k => hasStop k
+  | .tryUndo b h k => hasStop b || hasStop h || hasStop k
+  | .tryStop _ _ _ => true
+  | .callS _ _ k => hasStop k | .declCall _ _ _ k => hasStop k | .assignCall _ _ _ k => hasStop k
+
 /-- store the (already parsed) command-line arguments into the entry frame -/
 def writeArgs (w F : Nat) : Mem → Nat → List Int → Mem
   | m, _, [] => m
   | m, i, a :: rest => writeArgs w F (m.writeLE (F - (i + 2) * w) w (wrapI (256 ^ w) a)) (i + 1) rest
 
-/-- the state section `gen_lines` emits: `ap fp r0 r1 r2`, the stack, the entry frame (arguments,
-then the return address of `@is_you`, which is `all_is_win`); everything else is zero -/
-def initMem (cf : Config) (args : List Int) (pr : CProg) : Mem :=
+/-- the state section `gen_lines` emits, before the arguments are stored: `ap fp r0 r1 r2`, the stack, the
+entry frame (room for the arguments, then the return address of `@is_you`, which is `all_is_win`), and in
+programs with a `try/stop` two more words behind the entry frame, `try_fp` (0) and `defeat` (`halt`);
+everything else is zero -/
+def initBase (cf : Config) (nargs : Nat) (pr : CProg) : Mem :=
   let w := cf.w
-  let stackEnd := 5 * w + cf.stackWords * w + args.length * w + w
-  writeArgs w stackEnd
-    ((((⟨Array.replicate stackEnd 0⟩ : Mem).writeLE 0 w (5 * w)).writeLE w w stackEnd).writeLE (stackEnd - w) w
-      (progLen cf.checked pr + off_all_is_win)) 0 args
+  let stackEnd := 5 * w + cf.stackWords * w + nargs * w + w
+  let m0 : Mem := ((((⟨Array.replicate (stackEnd + (if hasStop pr.body then 2 * w else 0)) 0⟩ : Mem).writeLE 0 w (5 * w)).writeLE w w stackEnd).writeLE
+      (stackEnd - w) w (progLen cf.checked pr + off_all_is_win))
+  if hasStop pr.body then m0.writeLE (stackEnd + w) w (progLen cf.checked pr + off_halt) else m0
+
+/-- the initial state: the (already parsed) command-line arguments stored in the entry frame -/
+def initMem (cf : Config) (args : List Int) (pr : CProg) : Mem :=
+  writeArgs cf.w (5 * cf.w + cf.stackWords * cf.w + args.length * cf.w + cf.w) (initBase cf args.length pr) 0 args
 
 def coreProg (cf : Config) (pr : CProg) : Prog :=
   { w := cf.w, code := (progCode cf pr ++ stdlibCode cf.w (progLen cf.checked pr)).toArray, const := ⟨#[]⟩ }
@@ -713,6 +768,22 @@ def exec (M n : Nat) (fns : List FDecl) (w : Nat) :
 
   | _ + 1, _, _, env, .brk => some (env, [], .brk)
   | _ + 1, _, _, env, .cnt => some (env, [], .cnt)
+  | f + 1, room, o, env, .tryStop body handler k => do
+    -- the frame slot that keeps `ap` for the handler is the pseudo-variable `%ap`
+    let (env1, tr1, r1) ← exec M n fns w f room (o + w) (upd env "%ap" (5 * w)) body
+    if r1 = .defeat then
+      -- the body ran up to the point of defeat; what it did stays; the handler goes on from there.
+      -- (`%ap` is the compiler's own slot: no source program can name it, and a tree that assigns to it has no meaning here)
+      if env1 "%ap" ≠ 5 * w then none else
+      let (env2, tr2, r2) ← exec M n fns w f room o env1 handler
+      if r2 = .norm then
+        let (env3, tr3, r3) ← exec M n fns w f room o env2 k
+        pure (env3, tr1 ++ tr2 ++ tr3, r3)
+      else pure (env2, tr1 ++ tr2, r2)
+    else if r1 = .norm then
+      let (env3, tr3, r3) ← exec M n fns w f room o env1 k
+      pure (env3, tr1 ++ tr3, r3)
+    else pure (env1, tr1, r1)
 
 /-- the environment the entry point starts in: its parameters bound to the arguments -/
 def argEnv (M : Nat) (params : List String) (args : List Int) : Env := bindEnv params (args.map (wrapI M))
@@ -796,6 +867,8 @@ partial def toS (fns : List String) : List Hid.Stmt → Option S
   | .loop c (.block body) (.block cont) :: k => do pure (.loop (← toB c) (← toS fns body) (← toS fns cont) (← toS fns k))
   | .tryb (.block body) .undo (.block handler) :: k => do
     pure (.tryUndo (← toS fns body) (← toS fns handler) (← toS fns k))
+  | .tryb (.block body) .stop (.block handler) :: k => do
+    pure (.tryStop (← toS fns body) (← toS fns handler) (← toS fns k))
   | _ => none
 
 /-- the functions called in a statement list, in the order in which code generation meets the calls -/
@@ -808,6 +881,7 @@ def callsOf : S → List String
   | .loop _ body cont k => callsOf body ++ callsOf cont ++ callsOf k
   | .defeat k => callsOf k | .defeatIf _ k => callsOf k
   | .tryUndo b h k => callsOf b ++ callsOf h ++ callsOf k
+  | .tryStop b h k => callsOf b ++ callsOf h ++ callsOf k
   | .callS g _ k => g :: callsOf k | .declCall _ g _ k => g :: callsOf k | .assignCall _ g _ k => g :: callsOf k
 
 /-- `hidc` emits a function when it is first referenced (a FIFO work list starting at `@is_you`) -/
@@ -864,28 +938,30 @@ def boundB (Γ : List String) : B → Bool
   | .and l r => boundB Γ l && boundB Γ r
   | .or l r => boundB Γ l && boundB Γ r
 
-/-- variables are declared before use and never shadowed -/
-def wfS : List String → S → Bool
-  | _, .nil => true
-  | _, .ret => true
-  | Γ, .decl x e k => boundE Γ e && !Γ.contains x && wfS (x :: Γ) k
-  | Γ, .assign x e k => Γ.contains x && boundE Γ e && wfS Γ k
-  | Γ, .write e k => boundE Γ e && wfS Γ k
-  | Γ, .writeln (some e) k => boundE Γ e && wfS Γ k
-  | Γ, .writeln none k => wfS Γ k
-  | Γ, .putc _ k => wfS Γ k
-  | Γ, .block b k => wfS Γ b && wfS Γ k
-  | Γ, .ifb c t e k => boundB Γ c && wfS Γ t && wfS Γ e && wfS Γ k
-  | Γ, .loop c body cont k => boundB Γ c && wfS Γ body && wfS Γ cont && wfS Γ k
-  | Γ, .defeat k => wfS Γ k
-  | Γ, .defeatIf c k => boundB Γ c && isD c && wfS Γ k
-  | Γ, .tryUndo body handler k => wfS Γ body && wfS Γ handler && wfS Γ k
-  | Γ, .retE e => boundE Γ e
-  | Γ, .callS _ args k => args.all (boundE Γ) && wfS Γ k
-  | Γ, .declCall x _ args k => args.all (boundE Γ) && !Γ.contains x && wfS (x :: Γ) k
-  | Γ, .assignCall x _ args k => Γ.contains x && args.all (boundE Γ) && wfS Γ k
-  | _, .brk => true
-  | _, .cnt => true
+/-- variables are declared before use and never shadowed; `vd` says that the list is inside the body of a
+`try/stop`, where `!truth_is_defeat` is outside the modelled sub-language (`!is_defeat()` is covered) -/
+def wfS : Bool → List String → S → Bool
+  | _, _, .nil => true
+  | _, _, .ret => true
+  | vd, Γ, .decl x e k => boundE Γ e && !Γ.contains x && wfS vd (x :: Γ) k
+  | vd, Γ, .assign x e k => Γ.contains x && boundE Γ e && wfS vd Γ k
+  | vd, Γ, .write e k => boundE Γ e && wfS vd Γ k
+  | vd, Γ, .writeln (some e) k => boundE Γ e && wfS vd Γ k
+  | vd, Γ, .writeln none k => wfS vd Γ k
+  | vd, Γ, .putc _ k => wfS vd Γ k
+  | vd, Γ, .block b k => wfS vd Γ b && wfS vd Γ k
+  | vd, Γ, .ifb c t e k => boundB Γ c && wfS vd Γ t && wfS vd Γ e && wfS vd Γ k
+  | vd, Γ, .loop c body cont k => boundB Γ c && wfS vd Γ body && wfS vd Γ cont && wfS vd Γ k
+  | vd, Γ, .defeat k => wfS vd Γ k
+  | vd, Γ, .defeatIf c k => boundB Γ c && isD c && wfS vd Γ k && !vd
+  | vd, Γ, .tryUndo body handler k => wfS vd Γ body && wfS vd Γ handler && wfS vd Γ k
+  | _, Γ, .retE e => boundE Γ e
+  | vd, Γ, .callS _ args k => args.all (boundE Γ) && wfS vd Γ k
+  | vd, Γ, .declCall x _ args k => args.all (boundE Γ) && !Γ.contains x && wfS vd (x :: Γ) k
+  | vd, Γ, .assignCall x _ args k => Γ.contains x && args.all (boundE Γ) && wfS vd Γ k
+  | _, _, .brk => true
+  | _, _, .cnt => true
+  | vd, Γ, .tryStop body handler k => !Γ.contains "%ap" && wfS true ("%ap" :: Γ) body && wfS vd Γ handler && wfS vd Γ k
 
 /-- no `try` inside (the body of a `try` is a defeat context, where `try` is not allowed) -/
 def noTry : S → Bool
@@ -900,6 +976,7 @@ def noTry : S → Bool
   | .retE _ => true
   | .callS _ _ k => noTry k | .declCall _ _ _ k => noTry k | .assignCall _ _ _ k => noTry k
   | .brk => true | .cnt => true
+  | .tryStop _ _ _ => false
 
 /-- neither `try` nor defeat calls -/
 def plain : S → Bool
@@ -914,21 +991,24 @@ def plain : S → Bool
   | .retE _ => true
   | .callS _ _ k => plain k | .declCall _ _ _ k => plain k | .assignCall _ _ _ k => plain k
   | .brk => true | .cnt => true
+  | .tryStop _ _ _ => false
 
 /-- the flavour rules on core programs (guaranteed by the parser, C06): at the level of the you
-function defeat calls occur only inside `try` bodies, `try` is not nested, handlers are plain -/
-def youLevel : S → Bool
+function defeat calls occur only inside `try` bodies, `try` is not nested, handlers are plain;
+`st` says whether `try/stop` may occur (the state section then has the words `try_fp` and `defeat`) -/
+def youLevel (st : Bool) : S → Bool
   | .nil => true | .ret => true
-  | .decl _ _ k => youLevel k | .assign _ _ k => youLevel k | .write _ k => youLevel k | .writeln _ k => youLevel k
-  | .putc _ k => youLevel k
-  | .block b k => youLevel b && youLevel k
-  | .ifb _ t e k => youLevel t && youLevel e && youLevel k
-  | .loop _ body cont k => youLevel body && youLevel cont && youLevel k
+  | .decl _ _ k => youLevel st k | .assign _ _ k => youLevel st k | .write _ k => youLevel st k | .writeln _ k => youLevel st k
+  | .putc _ k => youLevel st k
+  | .block b k => youLevel st b && youLevel st k
+  | .ifb _ t e k => youLevel st t && youLevel st e && youLevel st k
+  | .loop _ body cont k => youLevel st body && youLevel st cont && youLevel st k
   | .defeat _ => false | .defeatIf _ _ => false
-  | .tryUndo body handler k => noTry body && plain handler && youLevel k
+  | .tryUndo body handler k => noTry body && plain handler && youLevel st k
   | .retE _ => true
-  | .callS _ _ k => youLevel k | .declCall _ _ _ k => youLevel k | .assignCall _ _ _ k => youLevel k
+  | .callS _ _ k => youLevel st k | .declCall _ _ _ k => youLevel st k | .assignCall _ _ _ k => youLevel st k
   | .brk => true | .cnt => true
+  | .tryStop body handler k => st && noTry body && plain handler && youLevel st k
 
 /-- control never falls off the end of the list (the front end appends `return;` to every `void`
 function that could, and rejects the others: `FuncDefinition.evaluate`) -/
@@ -943,6 +1023,7 @@ def noFall : S → Bool
   | .tryUndo b h k => (noFall b && noFall h) || noFall k
   | .callS _ _ k => noFall k | .declCall _ _ _ k => noFall k | .assignCall _ _ _ k => noFall k
   | .brk => true | .cnt => true
+  | .tryStop b h k => (noFall b && noFall h) || noFall k
 
 /-- `break` and `continue` occur only inside loop bodies (`inLoop`; guaranteed by the parser, C06) -/
 def escFree : Bool → S → Bool
@@ -956,6 +1037,7 @@ def escFree : Bool → S → Bool
   | b, .defeat k => escFree b k | b, .defeatIf _ k => escFree b k
   | b, .tryUndo s h k => escFree b s && escFree b h && escFree b k
   | b, .callS _ _ k => escFree b k | b, .declCall _ _ _ k => escFree b k | b, .assignCall _ _ _ k => escFree b k
+  | b, .tryStop s h k => escFree b s && escFree b h && escFree b k
 
 /-- every call names a function of the table with the right number of arguments -/
 def callsOK (fns : List FDecl) : S → Bool
@@ -967,6 +1049,7 @@ def callsOK (fns : List FDecl) : S → Bool
   | .loop _ body cont k => callsOK fns body && callsOK fns cont && callsOK fns k
   | .defeat k => callsOK fns k | .defeatIf _ k => callsOK fns k
   | .tryUndo b h k => callsOK fns b && callsOK fns h && callsOK fns k
+  | .tryStop b h k => callsOK fns b && callsOK fns h && callsOK fns k
   | .callS g args k =>
     (match fns.find? (fun fd => fd.name == g) with | some fd => fd.params.length == args.length | none => false) && callsOK fns k
   | .declCall _ g args k =>
@@ -974,11 +1057,38 @@ def callsOK (fns : List FDecl) : S → Bool
   | .assignCall _ g args k =>
     (match fns.find? (fun fd => fd.name == g) with | some fd => fd.params.length == args.length | none => false) && callsOK fns k
 
+/-- no `return` -/
+def noRet : S → Bool
+  | .nil => true | .ret => false | .retE _ => false | .brk => true | .cnt => true
+  | .decl _ _ k => noRet k | .assign _ _ k => noRet k | .write _ k => noRet k
+  | .writeln _ k => noRet k | .putc _ k => noRet k
+  | .block b k => noRet b && noRet k
+  | .ifb _ t e k => noRet t && noRet e && noRet k
+  | .loop _ body cont k => noRet body && noRet cont && noRet k
+  | .defeat k => noRet k | .defeatIf _ k => noRet k
+  | .tryUndo b h k => noRet b && noRet h && noRet k
+  | .tryStop b h k => noRet b && noRet h && noRet k
+  | .callS _ _ k => noRet k | .declCall _ _ _ k => noRet k | .assignCall _ _ _ k => noRet k
+
+/-- the bodies of `try/stop` blocks are within what the proofs cover: no `return`, no `break`/`continue`
+leaving the body (and no `!truth_is_defeat`: `wfS`) -/
+def stopOK : S → Bool
+  | .nil => true | .ret => true | .retE _ => true | .brk => true | .cnt => true
+  | .decl _ _ k => stopOK k | .assign _ _ k => stopOK k | .write _ k => stopOK k
+  | .writeln _ k => stopOK k | .putc _ k => stopOK k
+  | .block b k => stopOK b && stopOK k
+  | .ifb _ t e k => stopOK t && stopOK e && stopOK k
+  | .loop _ body cont k => stopOK body && stopOK cont && stopOK k
+  | .defeat k => stopOK k | .defeatIf _ k => stopOK k
+  | .tryUndo b h k => stopOK b && stopOK h && stopOK k
+  | .tryStop b h k => noRet b && escFree false b && stopOK h && stopOK k
+  | .callS _ _ k => stopOK k | .declCall _ _ _ k => stopOK k | .assignCall _ _ _ k => stopOK k
+
 /-- the static conditions the theorems assume of a program (all guaranteed by the front end) -/
 def wfProg (pr : CProg) : Bool :=
-  pr.params.Nodup && wfS pr.params pr.body && youLevel pr.body && noFall pr.body && escFree false pr.body &&
-  callsOK pr.funs pr.body &&
+  pr.params.Nodup && wfS false pr.params pr.body && youLevel (hasStop pr.body) pr.body && noFall pr.body && escFree false pr.body &&
+  stopOK pr.body && callsOK pr.funs pr.body &&
   (pr.funs.map (·.name)).Nodup &&
-  pr.funs.all (fun fd => fd.params.Nodup && wfS fd.params fd.body && plain fd.body && callsOK pr.funs fd.body)
+  pr.funs.all (fun fd => fd.params.Nodup && wfS false fd.params fd.body && plain fd.body && callsOK pr.funs fd.body)
 
 end HidVerif.Core
